@@ -33,6 +33,7 @@ func Spec() *run.Spec {
 			"Directed sequence (about 1 in 12 operations where such a source exists): a float / slice / map source below a node that was read moves 0 -> -0 -> 0 (slices: the signs of all zeros flipped, in place or as a fresh slice; maps: in-place edit + Set(same map)) with a read of the node above after every move: every such Set is a change of the source, the nodes above must be Stale and the value read must be the from-scratch one; a Set of a bit-identical value may or may not count as a change, as before. " +
 			"Directed sequence (all phases, about 1 in 20 operations): a node that has executed loses every wired input (named inputs cleared, array entries removed down to the empty array), then it and a consumer are read. " +
 			"Phase first-use: every case runs in a worker process of its own, so the processor types are new to polyform; per kind (3-9 of the kinds with named inputs) a sparse instance (some / the only named input unwired) and a full instance are built, in half of the cases the sparse instances execute first, in the other half the full ones; per open input: its source on the full instance changes, read; the input is wired on the sparse instance, read, its source changes, read; then 10-40 random operations; same checks (every case counts as non-trivial). In the batched phases the harness records per worker process which named inputs were unwired on the first instance of each kind that executed, and counts the later reads of other instances (other cases) that have such an input wired and changed. " +
+			"Phase large-fan-in: one node with 65, 64, 66, 63, 100, 129, 128, 200, 300 (then random 60-300) wired dependencies, as one array input (string or int), two array inputs (sometimes both below 64 with the sum past it) or two named inputs plus an array; every dependency has a source of its own (for a quarter / a tenth of them in half of the cases through a unary node); after a first read, single updates that touch exactly one dependency at sorted position first / 62 / 63 / 64 / 65 / 66 / last / 6 random ones, a read of the node (or its consumer) after each, then two far dependencies at once, then 15 removals / updates / reads; same checks (every case counts as non-trivial). " +
 			"Non-trivial: the history re-reads a node whose cone contains a node with >= 2 dependencies at different versions (the state in which a permuted dependency order shows). Distinctness: shape / node-count bucket / source count / longest array bucket / history length bucket.",
 		Assumptions: []string{
 			"processors are pure functions of their inputs (no side effects besides the harness counter); two kinds (ChkI: negative input, ChkS: a third of all strings) return (fallback value, error): Value() must hand out that fallback (what nodes.Struct does with the result of Process()), an execution that ends in an error counts as one execution and +1 version like any other (behaviour of the unchanged tree), and State() of an up-to-date failed node may be Processed (unchanged tree) or Error",
@@ -44,22 +45,25 @@ func Spec() *run.Spec {
 		},
 		MinNontrivial: map[string]int{"quick": 100, "thorough": 300},
 		MinObserved: map[string]int64{
-			"idle_rereads":                                2000,
-			"reads_mixed_dep_versions":                    300,
-			"executions":                                  1000,
-			"reads_array_ge10_in_cone":                    50,
-			"state_checks":                                5000,
-			"ops_array_remove":                            50,
-			"ops_set_named_replace":                       50,
-			"ops_update_parameter.Value":                  50,
-			"ops_update_nodes.ValueNode":                  50,
-			"lazy_scenario_condition_flipped":             100,
-			"fail_scenario_recovered":                     100,
-			"fail_scenario_made_to_fail":                  100,
-			"executions_ending_in_error":                  500,
-			"executed_node_lost_its_last_input_then_read": 500,
-			"executed_node_array_emptied_then_read":       100,
-			"first_use_cases_in_a_fresh_process":          40,
+			"idle_rereads":                                          2000,
+			"reads_mixed_dep_versions":                              300,
+			"executions":                                            1000,
+			"reads_array_ge10_in_cone":                              50,
+			"state_checks":                                          5000,
+			"ops_array_remove":                                      50,
+			"ops_set_named_replace":                                 50,
+			"ops_update_parameter.Value":                            50,
+			"ops_update_nodes.ValueNode":                            50,
+			"lazy_scenario_condition_flipped":                       100,
+			"fail_scenario_recovered":                               100,
+			"fail_scenario_made_to_fail":                            100,
+			"executions_ending_in_error":                            500,
+			"large_fan_in_histories_with_more_than_64_dependencies": 5,
+			"large_fan_in_single_dependency_updates_at_sorted_position_ge64":                      20,
+			"large_fan_in_position_classes":                                                       8,
+			"executed_node_lost_its_last_input_then_read":                                         500,
+			"executed_node_array_emptied_then_read":                                               100,
+			"first_use_cases_in_a_fresh_process":                                                  40,
 			"first_use_input_unwired_on_first_instance_wired_on_later_instance_changed_and_read":  30,
 			"first_use_input_unwired_at_first_execution_wired_later_changed_and_read":             60,
 			"first_use_input_wired_on_first_instance_changed_and_read":                            30,
@@ -100,6 +104,12 @@ func Spec() *run.Spec {
 				}
 				return 48
 			}, Run: firstUse, Batch: 1, CPUBudgetS: 60},
+			{Name: "large-fan-in", Cases: func(t string) int {
+				if t == "thorough" {
+					return 100
+				}
+				return 9
+			}, Run: largeFanIn, Batch: 3, CPUBudgetS: 120},
 		},
 	}
 }
@@ -306,6 +316,9 @@ func (h *hist) build() bool {
 				}
 				for j := range mn.arr {
 					ln.node.SetInput(fmt.Sprintf("%s.%d", kd.arr.name, j), nodes.Output{NodeOutput: h.output(&mn.arr[j])})
+				}
+				for j := range mn.arr2 {
+					ln.node.SetInput(fmt.Sprintf("More.%d", j), nodes.Output{NodeOutput: h.output(&mn.arr2[j])})
 				}
 			}
 			if len(mn.arr) > h.maxArr {
